@@ -76,6 +76,10 @@ def run(ctx):
         for k in ('after', 'raw_after', 'before', 'raw', 'raw_before', 'comments_after', 'obs', 'entries', 'names'):
             if k in c and c[k] is None:     # Go nil slices
                 c[k] = []
+        if c['kind'] == 'hist':
+            for k in ('obs', 'raw', 'fresh'):
+                if c.get(k) is None:
+                    c[k] = []
         if c['kind'] == 'e2e' and c.get('comments') is None:
             c['comments'] = []
         by[c['kind']].append(c)
@@ -148,7 +152,30 @@ def run(ctx):
             own_given(c) + (S.ref('vs', clist(c_viol(I, v) for v in c['raw'])), clist(c_viol(I, v) for v in c['obs'])))
         for c in agg) + '.')
 
-    checks = [('R_dir', 'dir_agrees', 'dir_cases'), ('R_ign', 'ign_agrees', 'ign_cases'),
+    # ---- histories: directives handed from run to run
+    hist_all = by['hist']
+    hcases = [c for c in hist_all if not c.get('err')]
+    hist_errs = [c for c in hist_all if c.get('err')]
+
+    def cgomap(m):
+        return clist('(%s, %s)' % (I.s(f), clist('(%s, %s)' % (I.s(k), clist(I.s(n) for n in (m[f][k] or [])))
+                                                  for k in sorted(m[f] or {}))) for f in sorted(m or {}))
+
+    def fmt_hist(c):
+        return ('{| h_init := %s; h_edits := %s; h_mixed := %s; h_export := %s; h_raw := %s; h_obs := %s |}' % (
+            clist('(%s, %s)' % (I.s(n), S.ref('cs', clist(c_comment(I, x) for x in c['init_comments'][n] or [])))
+                  for n in sorted(c['init_comments'])),
+            clist('(%s, %s)' % (I.s(e['file']), S.ref('cs', clist(c_comment(I, x) for x in e['comments'] or [])))
+                  for e in c['edits']),
+            cbool(c['mixed']), cgomap(c['export']),
+            S.ref('vs', clist(c_viol(I, v) for v in c['raw'] or [])),
+            '(' + clist(c_viol(I, v) for v in c['obs'] or []) + ' : list violation)'))
+
+    body.append('Definition hist_cases : list hist_case := ' + clist(fmt_hist(c) for c in hcases) + '.')
+
+    checks = [('R_hist', 'hist_agrees', 'hist_cases'), ('R_hexport', 'hist_export_agrees', 'hist_cases'),
+              ('R_hcons', 'hist_model_consistent', 'hist_cases'),
+              ('R_dir', 'dir_agrees', 'dir_cases'), ('R_ign', 'ign_agrees', 'ign_cases'),
               ('R_ignspec', 'ign_meets_spec', 'ign_cases'), ('R_key', 'key_agrees', 'key_cases'),
               ('R_carry', 'carry_agrees', 'carry_cases'), ('R_cmt', 'comments_agree', 'e2e_cases'),
               ('R_before', 'before_agrees', 'e2e_cases'), ('R_after', 'after_agrees', 'e2e_cases'),
@@ -171,6 +198,14 @@ def run(ctx):
         q['after'] = q['after'][1:]
         body.append('Definition T_e2e := Eval vm_compute in failing after_agrees 0 [%s].' % fmt_e2e(q))
         selftest.append('T_e2e')
+    ph = next((c for c in hcases if not c['mixed'] and
+               any(v not in c['obs'] and v['file'] == c['edits'][-1]['file'] for v in c['raw'])), None)
+    if ph is not None:
+        # the report of a step where something is ignored, paired with a history that ends without any directive
+        q = json.loads(json.dumps(ph))
+        q['edits'] = q['edits'] + [dict(q['edits'][-1], comments=[])]
+        body.append('Definition T_hist := Eval vm_compute in failing hist_agrees 0 [%s].' % fmt_hist(q))
+        selftest.append('T_hist')
     body.append(' '.join('Print %s.' % n for n, _, _ in checks) + ' Print R_nsuppr. ' + ' '.join('Print %s.' % t for t in selftest))
     v = ['From Regal Require Import Check.C06Check.', 'Open Scope N_scope.'] + I.defs + S.defs + body
     rc, cout = vlib.coq_eval(ctx, 'Cases_C06', '\n'.join(v))
@@ -211,6 +246,29 @@ def run(ctx):
                              'what': 'collect per file + WithAggregates + WithIgnoreDirectives reports aggregate violations '
                                      'that the one-shot run of the same files does not (or vice versa)'},
                        signature={'kind': 'two-phase-directives', 'key': json.dumps(c['files'], sort_keys=True)})
+    # (2b) histories of single-file replacements: the incremental report must equal a fresh one-shot run
+    def hist_key(c):
+        return json.dumps([sorted(c['init'].items()), [[e['file'], e['text']] for e in c['edits']], c['mixed']])
+
+    def hist_replay(c):
+        return {k: c[k] for k in ('kind', 'ws', 'h', 'step', 'mixed', 'target', 'init', 'init_comments', 'edits')}
+
+    hist_bad = [c for c in hcases if not c['pred_ok']]
+    hist_bad.sort(key=lambda c: (len(c['edits']), c['mixed'], len(json.dumps(c['files']))))
+    for c in hist_bad[:1]:
+        last = c['edits'][-1]
+        vlib.violation(ctx, {'kind': 'incremental-directives', 'case': hist_replay(c), 'files_after': c['files'],
+                             'incremental': c['obs'], 'fresh': c['fresh'],
+                             'only_incremental': [v for v in c['obs'] if v not in c['fresh']],
+                             'only_fresh': [v for v in c['fresh'] if v not in c['obs']],
+                             'what': 'after %d single-file replacement(s) (last: %s -> version "%s"), %s differs from one Lint call '
+                                     'over the current contents' % (
+                                         len(c['edits']), last['file'], last['vkind'],
+                                         'linting that file WithAggregates + WithIgnoreDirectives(map of the previous runs)'
+                                         if c['mixed'] else
+                                         'the report-only run WithAggregates + WithIgnoreDirectives(map updated from every '
+                                         "run's Report.IgnoreDirectives)")},
+                       signature={'kind': 'incremental-directives', 'key': hist_key(c)})
     # (3) _ignored against the specification
     for i in R['R_ignspec'][:1]:
         c = igns[i]
@@ -227,13 +285,18 @@ def run(ctx):
                            signature={'kind': 'directive-effect', 'key': e2e_key(c)})
     # (5) correspondence only
     if not ctx.violations:
-        rel = [('R_dir', dirs, 'dir_agrees (ast.ignore_directives)'), ('R_ign', igns, 'ign_agrees (main._ignored)'),
+        rel = [('R_hexport', hcases, 'hist_export_agrees (Report.IgnoreDirectives has an entry for every linted file, also an empty one)'),
+               ('R_hist', hcases, 'hist_agrees (directives handed from run to run: dirs_update / lint_dirs along a history)'),
+               ('R_hcons', hcases, 'hist_model_consistent (the model itself: handed-on directives = those of one run)'),
+               ('R_dir', dirs, 'dir_agrees (ast.ignore_directives)'), ('R_ign', igns, 'ign_agrees (main._ignored)'),
                ('R_key', keys, 'key_agrees (util.keys_to_numbers)'), ('R_carry', carries, 'carry_agrees (row keys handed to Go)'),
                ('R_cmt', e2e, 'comments_agree (comments after the edit)'), ('R_before', e2e, 'before_agrees (report = raw minus ignored)'),
                ('R_after', e2e, 'after_agrees (report after the edit)'), ('R_agg', agg, 'agg_agrees (aggregate branch filter)')]
         for name, lst, what in rel:
             if R[name]:
                 small = min((lst[i] for i in R[name]), key=lambda c: len(json.dumps(c)))
+                if small.get('kind') == 'hist':
+                    small = dict(hist_replay(small), export=small['export'], obs=small['obs'], raw=small['raw'])
                 vlib.violation(ctx, {'kind': 'correspondence', 'relation': 'Check.C06Check.' + what, 'case': small,
                                      'n_mismatches': len(R[name])}, no_input=True)
                 break
@@ -242,7 +305,7 @@ def run(ctx):
                        no_input=True)
     for c in (dir_errors + key_errors)[:1]:
         vlib.violation(ctx, {'kind': 'helper-error', 'case': c}, no_input=True)
-    for c in agg_errs[:1]:
+    for c in (agg_errs + hist_errs)[:1]:
         vlib.violation(ctx, {'kind': 'lint-error', 'case': c}, no_input=False)
     proof_gate(ctx)
 
@@ -258,13 +321,26 @@ def run(ctx):
     effective = [c for c in e2e if sorted(map(json.dumps, c['after'])) !=
                  sorted(map(json.dumps, c['raw_after']))]
     distinct = len({json.dumps([c['comments'], c.get('entries')], sort_keys=True) for c in dirs}) + \
-        len({e2e_key(c) for c in e2e}) + len({json.dumps([c['files'], c['mode']], sort_keys=True) for c in agg})
+        len({e2e_key(c) for c in e2e}) + len({json.dumps([c['files'], c['mode']], sort_keys=True) for c in agg}) + \
+        len({hist_key(c) for c in hcases})
+    trans = collections.Counter()
+    lost_last = 0
+    for c in hcases:
+        if c['mixed']:
+            continue
+        last = c['edits'][-1]
+        prev = next((e['vkind'] for e in reversed(c['edits'][:-1]) if e['file'] == last['file']), 'initial')
+        trans['%s -> %s' % (prev, last['vkind'])] += 1
+        if prev not in ('none', 'initial') and not any(
+                'regal ignore:' in bytes(x['text']).decode('utf-8', 'replace') for x in last['comments']):
+            lost_last += 1
     skipped = collections.Counter(c.get('skip', '')[:40] for c in e2e_all + agg_all if c.get('skip'))
     cov = proof_coverage(ctx, {
-        'evaluations': len(dirs) + len(igns) + len(keys) + len(carries) + len(e2e) + len(agg),
+        'evaluations': len(dirs) + len(igns) + len(keys) + len(carries) + len(e2e) + len(agg) + len(hcases),
         'distinct_nontrivial': distinct,
         'rule': 'distinct = distinct helper inputs (comment rows+texts) + distinct (module text, target violation, placement, directive '
-                'text) metamorphic cases + distinct (workspace files, pipeline mode) aggregate cases; skipped cases not counted',
+                'text) metamorphic cases + distinct (workspace files, pipeline mode) aggregate cases + distinct (initial files, '
+                'sequence of single-file replacements, report-only | mixed) history cases; skipped cases not counted',
         'helper_dir_cases': len(dirs), 'helper_ignored_cases': len(igns), 'helper_ignored_true': n_suppressed,
         'helper_keys_cases': len(keys), 'helper_carry_cases': len(carries),
         'e2e_cases': len(e2e), 'e2e_cases_where_a_directive_suppressed_something': len(effective),
@@ -272,6 +348,9 @@ def run(ctx):
         'e2e_h_shift_failed (hypothesis not met, prediction skipped)': len([c for c in e2e if not c['h_shift']]),
         'e2e_inserted_below_an_existing_directive': len([c for c in e2e if c['own_above']]),
         'agg_cases': len(agg), 'skipped': dict(skipped),
+        'history_cases': len(hcases), 'history_steps_where_a_file_lost_its_last_directive': lost_last,
+        'history_transitions_of_the_replaced_file': dict(trans),
+        'history_incremental_vs_fresh_failures': len(hist_bad),
         'targets_by_rule': dict(titles), 'agg_targets_by_rule': dict(agg_titles), 'histogram': dict(hist),
         'mismatches': {k: len(vv) for k, vv in R.items() if k != 'R_hshift'},
         'glue_self_tests': selftest, 'glue_self_tests_blind': selftest_blind,
